@@ -17,7 +17,7 @@ CFG = "Join_Trace.cfg"
 SHAPES = [
     ("r", ["r"]), ("w", ["w"]), ("r_r", ["r", "r"]), ("w_r", ["w", "r"]), ("e_r", ["e", "r"]),
     ("e_w_r", ["e", "w", "r"]), ("r_n", ["r", "n"]), ("e_n", ["e", "n"]), ("r_m", ["r", "m"]),
-    ("w_mw", ["w", "mw"]), ("e_m_m", ["e", "m", "m"]), ("b_r", ["b", "r"]), ("bv", ["bv"]),
+    ("w_mw", ["w", "mw"]), ("e_m_m", ["e", "m", "m"]), ("e_mm_nest", ["e", "m", "m"]), ("b_r", ["b", "r"]), ("bv", ["bv"]),
     ("band_r", ["band", "r"]), ("bor", ["bor"]), ("bnot_r", ["bnot", "r"]), ("bxor_m", ["bxor", "m"]),
     ("rs_r", ["rs", "r"]), ("rsm_r", ["rsm", "r"]), ("e_rsm", ["e", "rsm"]), ("cs_r", ["cs", "r"]),
     ("csm_w", ["csm", "w"]), ("csv_r", ["csv", "r"]), ("dr_r", ["dr", "r"]), ("dr", ["dr"]),
@@ -110,7 +110,7 @@ def gen_scripts(seed, tier, want_par):
     tid = 21000000 if not want_par else 22000000
     fam3 = family(B3)
     famN = family(NEAR[:8]) + family(NEAR[8:])
-    pools = [1, 2, 3, 4, 8, 16, 64]
+    pools = [1, 2, 3, 4, 8, 16, 64, 96]
     tr = trees(5 if tier == "quick" else 7)
     per_pair = 1 if tier == "quick" else 3
     for shape, kinds in SHAPES:
